@@ -78,7 +78,15 @@ func (o *osLockRun) lockHeld(when string) bool {
 }
 
 func (o *osLockRun) opts() txfile.Options {
-	return txfile.Options{PageSize: o.ps, MaxSize: 0}
+	// option variants that must not change the exclusiveness of the path lock
+	op := txfile.Options{PageSize: o.ps, MaxSize: 0}
+	switch o.c.R.Intn(6) {
+	case 0:
+		op.Readonly = true
+	case 1:
+		op.Sync = txfile.SyncData
+	}
+	return op
 }
 
 func (o *osLockRun) open() bool {
